@@ -7,12 +7,12 @@ package icmp
 // C14: the JSON encoders emit the documented keys, each bound to its own field, in a fixed order
 //@ func easyjsonD3b49167EncodeGithubComVByteCpuSxPkgScanIcmp1
 //@   sig out, in
-//@   props C14
+//@   props C14 C03 C06 C16 C20
 //@   observe RawByte, RawString, Uint8
 //@   entry row object: [call RawByte(out, 123) ; call RawString(out, "\"type\":") ; call Uint8(out, in.Type) ; call RawString(out, ",\"code\":") ; call Uint8(out, in.Code) ; call RawByte(out, 125)] -> exit
 //@ func easyjsonD3b49167EncodeGithubComVByteCpuSxPkgScanIcmp
 //@   sig out, in
-//@   props C14
+//@   props C14 C03 C06 C16 C20
 //@   observe RawByte, RawString, String, Uint8, easyjsonD3b49167EncodeGithubComVByteCpuSxPkgScanIcmp1
 //@   entry row null:   [call RawByte(out, 123) ; call RawString(out, "\"scan\":") ; call String(out, in.ScanType) ; call RawString(out, ",\"ip\":") ; call String(out, in.IP) ;
 //@                      call RawString(out, ",\"ttl\":") ; call Uint8(out, in.TTL) ; call RawString(out, ",\"icmp\":") ; call RawString(out, "null") ; call RawByte(out, 125)] when in.ICMP == nil -> exit
@@ -21,12 +21,12 @@ package icmp
 //@                      when in.ICMP != nil && resp.Type == in.ICMP.Type && resp.Code == in.ICMP.Code -> exit
 //@ func (ScanResult).MarshalJSON
 //@   sig v
-//@   props C14
+//@   props C14 C03 C06 C16 C20
 //@   observe easyjsonD3b49167EncodeGithubComVByteCpuSxPkgScanIcmp, BuildBytes
 //@   entry row enc: [call easyjsonD3b49167EncodeGithubComVByteCpuSxPkgScanIcmp(bind_w, v) ; call BuildBytes(_, _) as (b)] when ret0 == b -> exit
 //@ func (*ScanResult).ID
 //@   sig r
-//@   props C14
+//@   props C14 C03 C06 C16 C20
 //@   ensures ret == r.IP
 
 // ---------------------------------------------------------------------------------------------
@@ -52,7 +52,7 @@ package icmp
 // C03: capture filter text: "icmp and icmp[0]!=8" (everything but echo requests), then " and ip src net " + subnet if given
 //@ func BPFFilter
 //@   sig r
-//@   props C03
+//@   props C03 C01 C02
 //@   modifies nothing
 //@   observe (*strings.Builder).WriteString, (*strings.Builder).String, (*net.IPNet).String
 //@   entry row bare: [call WriteString(_, "icmp and icmp[0]!=8") ; call String(_) as (res)] when r.DstSubnet == nil && ret0 == res && ret1 == 1518 -> exit
@@ -156,7 +156,7 @@ package icmp
 // plain-text form of a record: printing never panics, whatever the scanned host put into the record (C03 C16)
 //@ func (*ScanResult).String
 //@   sig r
-//@   props C03 C16
+//@   props C03 C16 C06 C14 C20
 
 // the scan method is the plain composition of its three parts: each role is forwarded unchanged
 //@ func (*ScanMethod).Packets
